@@ -79,8 +79,11 @@ def wclass(w):
 
 def describe_field(m, where):
     """'Decl.field' (as reported by the model) -> construct descriptor."""
-    if not where or "." not in where:
-        return where or "?"
+    if not where:
+        return "whole-input"
+    if "." not in where:
+        d0 = m.dm.get(where)
+        return (d0["kind"].split("_")[0] + "-body") if d0 else "?"
     did, fid = where.split(".", 1)
     fid = fid.split(" ")[0].split("[")[0]
     d = m.dm.get(did)
@@ -460,7 +463,7 @@ def expectation(m, tid, b):
     try:
         v, n = m.decode(tid, b)
     except DecodeFault as e:
-        return ("fault", e.kinds, e.where)
+        return ("fault", e.kinds, e.where, e.in_array)
     except Abstain as e:
         return ("abstain", str(e), None)
     except RecursionError:
